@@ -309,7 +309,7 @@ Qed.
 
 (* ---------- the whole path for row-major storage: pstrf, potrf of L^T L, solve ---------- *)
 (* semi_decompose psbs bs tbs RowMajor n epsm A0 is, by definition, pstrf_full (= pstrf with eps = pstrf_eps n epsm A0) followed,
-   when r < n, by potrf_blocked false RowMajor r (semi_gram n r L) = potrf_rec bs tbs r r 0 r (semi_gram n r L). *)
+   when r < n, by potrf_blocked2 false RowMajor r (semi_gram n r L) = potrf_rec bs tbs r r 0 r (semi_gram n r L). *)
 Hypothesis fleb_00 : fleb F 0 0 = true.
 
 Theorem semi_solve_rowmajor : forall eps psbs bs tbs n (A0 L Lc : mat) r P piv b x,
